@@ -134,6 +134,62 @@ def replay(path):
     print(open(path).read())
 
 
+def updated_in_place_entry_points(chk, da):
+    """every entry point on a collection that was materialised and THEN updated in place (slice / mask assignment, ufunc out=)
+    must give the updated values (NumPy is the oracle here, x.compute() included)"""
+    import random as _random
+    rng = _random.Random(f"C05-in-place-{chk.seed}")
+    for it in range(200 if chk.tier == "thorough" else 30):
+        shape = (rng.choice([6, 9]),) if rng.random() < 0.5 else (4, rng.choice([3, 5]))
+        data = np.arange(float(np.prod(shape))).reshape(shape) - 3
+        chunks = tuple(progs.rand_chunks_for(rng, n) for n in shape)
+        update = rng.choice(["mask", "mask", "slice", "ufunc-out"])
+        peek = rng.choice(["compute", "persist-and-drop", "keys", "dask.compute"])
+        want = data + 1
+        with warnings.catch_warnings():
+            warnings.simplefilter("ignore")
+            x = da.from_array(data, chunks=chunks) + 1
+            if peek == "compute":
+                x.compute(scheduler="sync")
+            elif peek == "persist-and-drop":
+                x.persist(scheduler="sync")
+            elif peek == "keys":
+                x.__dask_keys__()
+            else:
+                dask.compute(x, scheduler="sync")
+            if update == "mask":
+                x[x > 2] = -1.0
+                want[want > 2] = -1.0
+            elif update == "slice":
+                x[1:3] = 7.0
+                want[1:3] = 7.0
+            else:
+                da.add(x, 2.0, out=x)
+                want = want + 2.0
+        chk.count("in-place-entry:" + update)
+        chk.case(("in-place-entry", peek, update, shape, repr(chunks), it), nontrivial=True)
+        other = da.arange(5, chunks=2) * 2
+        entry = {"x.compute": lambda: x.compute(scheduler="sync"), "dask.compute": lambda: dask.compute(x, other, scheduler="sync")[0],
+                 "persist": lambda: x.persist(scheduler="sync").compute(scheduler="sync"),
+                 "dask.persist": lambda: dask.persist(x, other, scheduler="sync")[0].compute(scheduler="sync"),
+                 "x.optimize": lambda: x.optimize().compute(scheduler="sync"), "to_delayed": lambda: assemble_delayed(x)}
+        for name, fn in entry.items():
+            try:
+                with warnings.catch_warnings():
+                    warnings.simplefilter("ignore")
+                    got = np.asarray(fn())
+            except Exception as e:  # noqa: BLE001
+                chk.violation(f"{name} raises {type(e).__name__}: {str(e)[:100]} on a collection updated in place after it was materialised",
+                              {"read": peek, "update": update, "chunks": chunks, "entry_point": name}, signature={"class": "in-place-raises", "entry": name, "error": err_sig(e)})
+                continue
+            if got.shape != want.shape or not np.array_equal(got, want):
+                chk.violation(f"{name} returns the values from BEFORE an in-place update ({update}) made after the collection was materialised ({peek})",
+                              {"read": peek, "update": update, "chunks": chunks, "entry_point": name, "got": got.tolist(), "want": want.tolist()},
+                              signature={"class": "in-place-stale", "entry": name, "update": update})
+            else:
+                chk.traces_validated += 1
+
+
 def run(chk: Check):
     import dask_array as da
     chk.rule = ("generated programs (core ops) x 7 entry points (x.compute, dask.compute with another collection, x.persist, dask.persist, "
@@ -141,6 +197,7 @@ def run(chk: Check):
                 "with x.compute(); persisted / dask-optimized collections must keep name, chunks, dtype; non-trivial = more than one node")
     chk.run_proofs()
     model_family(chk, da)
+    updated_in_place_entry_points(chk, da)
     # corpus: F7a
     run_program(chk, da, ("reduce", "sum", ("src", 0), None, False, None), [(np.arange(10, dtype="int64"), ((5, 5),))], None)
     for _ in range(1500 if chk.tier == "thorough" else 250):
